@@ -355,6 +355,12 @@ def add_worm_gear_mating(
     worm_gear.self_locking = self_locking
     slave.master_gear_efficiency = efficiency
 
+    worm_wheel = slave if worm_gear is master else master
+    if worm_wheel.bending_stress_is_computable:
+        worm_wheel.time_variables.setdefault('bending stress', [])
+    else:
+        worm_wheel.time_variables.pop('bending stress', None)
+
 
 def add_fixed_joint(
     master: RotatingObject,
